@@ -3,6 +3,7 @@ package rules
 import (
 	"fmt"
 	"go/token"
+	"go/types"
 	"sort"
 	"strings"
 
@@ -660,4 +661,171 @@ func c17MergeResult(c *Ctx) {
 	if nd == 0 {
 		c.R.Bad(rule, mname+": every graft is diffed into the clone", c.P.Pos(mt.Pos()), "mergeTrees never diffs a graft into the clone")
 	}
+}
+
+// ---- C17.get-hides-tombstones / C17.adapter-defers: readers and merges agree about tombstones ---------
+
+func init() {
+	register(&Rule{Name: "C17.get-hides-tombstones", Min: 1, Run: c17GetHides,
+		Doc: "(*crdt.Tree).Get answers 'found' only on paths where the stored entry was tested and is not a tombstone, whatever the destination's type"})
+	register(&Rule{Name: "C17.adapter-defers", Min: 1, Run: c17AdapterDefers,
+		Doc: "the adapter MergeFunc.ToDiffFunc answers for a differing key only with what the merge function answered: no successful return without calling it"})
+	byProp["C17"] = append(byProp["C17"], "C17.get-hides-tombstones", "C17.adapter-defers")
+	byProp["C01"] = append(byProp["C01"], "C17.adapter-defers")
+	explain["C17"] += " get-hides-tombstones: 'a tombstone makes the key absent … Get, cursors, Diff and TraceHistory agree' — every 'found' return of Tree.Get (all of DB.Get, and what sqlite's getRow uses in its metadata form) lies behind the not-a-tombstone side of the test of the stored entry. adapter-defers: every merge mode goes through MergeFunc.ToDiffFunc; a shortcut there that answers 'handled' for a key without calling the merge function (e.g. for a tombstone the merging tree has no entry for) drops the other version's write from the merged version although the source version is retired — the result then depends on the shuffled fold order."
+	explain["C01"] += " adapter-defers (shared with C17): no differing key is settled without the merge function."
+}
+
+// tombstoneSide: for a branch condition that tests an entry's tombstone time (or calls
+// Tombstoned()), the side (true/false successor) on which the entry is NOT a tombstone; ok=false
+// if the condition is not such a test.
+func tombstoneSide(cond ssa.Value) (notTombSide bool, ok bool) {
+	cond, neg := an.StripNot(cond)
+	isTombField := func(v ssa.Value) bool {
+		found := false
+		an.DependsOn(v, func(w ssa.Value) bool {
+			if fv := an.FieldOfLoad(w); fv != nil && fv.Name() == "TombstoneSinceEpochNanos" {
+				found = true
+			}
+			if f, isF := w.(*ssa.Field); isF {
+				if fv := an.FieldVar(f.X.Type(), f.Field); fv != nil && fv.Name() == "TombstoneSinceEpochNanos" {
+					found = true
+				}
+			}
+			return false
+		})
+		return found
+	}
+	switch x := cond.(type) {
+	case *ssa.Call:
+		l := calleeLabel(x)
+		if l == "Tombstoned" || l == "IsTombstoned" {
+			return neg, true // true side = tombstoned; with a stripped '!' the sides swap
+		}
+	case *ssa.BinOp:
+		var other ssa.Value
+		swapped := false
+		switch {
+		case isTombField(x.X):
+			other = x.Y
+		case isTombField(x.Y):
+			other = x.X
+			swapped = true
+		default:
+			return false, false
+		}
+		k, isK := constInt(other)
+		if !isK || k != 0 {
+			return false, false
+		}
+		op := x.Op
+		if swapped {
+			switch op {
+			case token.LSS:
+				op = token.GTR
+			case token.GTR:
+				op = token.LSS
+			case token.LEQ:
+				op = token.GEQ
+			case token.GEQ:
+				op = token.LEQ
+			}
+		}
+		// the tombstone time is a positive number when set, 0 when not
+		var tombOnTrue bool
+		switch op {
+		case token.GTR, token.NEQ:
+			tombOnTrue = true
+		case token.EQL, token.LEQ:
+			tombOnTrue = false
+		default:
+			return false, false
+		}
+		return tombOnTrue == neg, true
+	}
+	return false, false
+}
+
+func c17GetHides(c *Ctx) {
+	const rule = "C17.get-hides-tombstones"
+	fn := mustFunc(c, "kv/internal/crdt", "*Tree", "Get")
+	if fn == nil {
+		return
+	}
+	name := core.FuncName(fn)
+	c.R.SawFunc(name)
+	h := an.THooks{Branch: func(iff *ssa.If, side bool, st an.TState) an.TState {
+		if nt, ok := tombstoneSide(iff.Cond); ok && side == nt {
+			return ansState(true)
+		}
+		return st
+	}}
+	exits := an.WalkTypestate(fn, ansState(false), h, c.Scope(fn))
+	good := len(exits) > 0
+	why := ""
+	n := 0
+	for _, ex := range exits {
+		if len(ex.Ret.Results) != 2 {
+			continue
+		}
+		if cb, isC := constBool(ex.Ret.Results[0]); isC && !cb {
+			continue
+		}
+		n++
+		if !bool(ex.St.(ansState)) {
+			good = false
+			why = "Get can answer 'found' at " + c.P.Pos(ex.Ret.Pos()) + " without having tested the stored entry for a tombstone: the metadata form Get(key, *crdt.Value) reports a deleted key as present (nil value, the tombstone's times) while the plain form, IsTombstoned and the cursor say absent"
+		}
+	}
+	if n == 0 {
+		c.R.Unk(rule, name+": found means not a tombstone", c.P.Pos(fn.Pos()), "no 'found' return located")
+		return
+	}
+	c.R.Cond(good, rule, name+": found means not a tombstone", c.P.Pos(fn.Pos()), fmt.Sprintf("%d 'found' returns, each behind the not-a-tombstone side of the test", n), why)
+}
+
+func c17AdapterDefers(c *Ctx) {
+	const rule = "C17.adapter-defers"
+	outer := mustFunc(c, "kv/internal/crdt", "MergeFunc", "ToDiffFunc")
+	if outer == nil {
+		return
+	}
+	if len(outer.AnonFuncs) != 1 {
+		c.R.Unk(rule, "crdt.MergeFunc.ToDiffFunc: shape", c.P.Pos(outer.Pos()), "expected one closure")
+		return
+	}
+	f := outer.AnonFuncs[0]
+	name := core.FuncName(f)
+	c.R.SawFunc(name)
+	isMF := func(cl ssa.CallInstruction) bool {
+		v := cl.Common().Value
+		if ld, ok := v.(*ssa.UnOp); ok && ld.Op == token.MUL {
+			v = ld.X
+		}
+		fv, ok := v.(*ssa.FreeVar)
+		if !ok {
+			return false
+		}
+		nt := an.NamedOf(fv.Type())
+		if p, isP := fv.Type().(*types.Pointer); isP {
+			nt = an.NamedOf(p.Elem())
+		}
+		return nt != nil && nt.Obj().Name() == "MergeFunc"
+	}
+	h := an.THooks{Instr: func(in ssa.Instruction, st an.TState) an.TState {
+		if cl, ok := in.(ssa.CallInstruction); ok && isMF(cl) {
+			return ansState(true)
+		}
+		return st
+	}}
+	exits := an.WalkTypestate(f, ansState(false), h, nil)
+	good := len(exits) > 0
+	why := ""
+	for _, ex := range exits {
+		if ex.ErrNil != 0 && !bool(ex.St.(ansState)) {
+			good = false
+			why = "the adapter can answer without error at " + c.P.Pos(ex.Ret.Pos()) + " although the merge function was not called: that key's entry of the other version (e.g. a tombstone for a key this tree never had) is left out of the merged version while its source version is retired — a slower writer's older value becomes visible again, and the outcome depends on the fold order"
+		}
+	}
+	c.R.Cond(good, rule, name+": every answer comes from the merge function", c.P.Pos(f.Pos()), "no successful return bypasses the merge function", why)
 }
